@@ -29,7 +29,8 @@ BLE_OPS = [["channel", 2], ["channel", 26], ["channel", 80], ["channel", 50], ["
            ["allow_ask_no_ack", True], ["data_rate", 2], ["crc", 2], ["auto_ack", True],
            ["open_tx_pipe", "hex:0102030405"], ["address_length", 5], ["dynamic_payloads", True],
            ["ack", True], ["open_rx_pipe", 1, "hex:0102030405"], ["close_rx_pipe", 0],
-           ["set_payload_length", 12, 0], ["set_auto_ack", 1, 1], ["set_dynamic_payloads", 1, 1]]
+           ["set_payload_length", 12, 0], ["set_auto_ack", 1, 1], ["set_dynamic_payloads", 1, 1],
+           ["set_auto_ack", 1, 3], ["set_dynamic_payloads", 1, 2], ["set_auto_ack", 0, 0], ["set_auto_ack", 1, None]]
 NET_OPS = [["channel", 90], ["channel", 76], ["channel", 3], ["set_dynamic_payloads", False, 2],
            ["set_dynamic_payloads", True, None], ["listen", True], ["listen", False],
            ["pa_level", -6], ["pa_level", 0], ["data_rate", 2], ["data_rate", 250],
@@ -41,9 +42,19 @@ NET_OPS = [["channel", 90], ["channel", 76], ["channel", 3], ["set_dynamic_paylo
            ["flush_tx"]]
 
 
-def ops_of(cls):
+FOCUS = [["open_rx_pipe", 0, "hex:3141424344"], ["open_rx_pipe", 0, "hex:c1c2c3"], ["open_rx_pipe", 0, "hex:e1f0f0f0f0"],
+         ["open_rx_pipe", 0, "hex:77"], ["open_rx_pipe", 1, "hex:a1a2a3a4a5"], ["open_rx_pipe", 1, "hex:b1b2"],
+         ["open_rx_pipe", 3, "hex:d3"], ["close_rx_pipe", 0], ["close_rx_pipe", 1], ["open_tx_pipe", "hex:3141424344"],
+         ["open_tx_pipe", "hex:77c2c3"], ["open_tx_pipe", "hex:e1f0f0f0f0"], ["open_tx_pipe", "hex:c1"],
+         ["listen", True], ["listen", True], ["listen", False], ["address_length", 3], ["address_length", 4],
+         ["address_length", 5], ["set_auto_ack", 0, 0], ["set_auto_ack", 1, 0], ["auto_ack", 0x3E], ["auto_ack", 0x3F],
+         ["set_auto_ack", 1, 2], ["set_dynamic_payloads", 1, 1], ["set_dynamic_payloads", 1, 3], ["data_rate", 3],
+         ["data_rate", 2], ["data_rate", 250], ["pa_level", -12], ["channel", 7]]
+
+
+def ops_of(cls, focus=False):
     if cls == "RF24":
-        return RF24_OPS
+        return FOCUS if focus else RF24_OPS
     if cls == "FakeBLE":
         return BLE_OPS
     return NET_OPS
@@ -51,7 +62,7 @@ def ops_of(cls):
 
 def gen_cases(ctx):
     rng = ctx.sub_rng("c09")
-    n = 1500 if ctx.tier == "quick" else 150000
+    n = 5000 if ctx.tier == "quick" else 200000
     for i in range(n):
         k = rng.choice([2, 2, 3])
         classes = [rng.choice(CLASSES) for _ in range(k)]
@@ -61,7 +72,7 @@ def gen_cases(ctx):
         blocks = []
         for _ in range(rng.randrange(3, 9)):
             who = rng.randrange(k)
-            pool = ops_of(classes[who])
+            pool = ops_of(classes[who], focus=(i % 2 == 1))
             blocks.append([who, [pool[rng.randrange(len(pool))] for _ in range(rng.randrange(0, 9))]])
         # a non-plus chip whose FEATURE register is 0 when a driver object is constructed
         # cannot be told from a plus variant (outside A19) -> FakeBLE mixes run on plus chips
